@@ -193,6 +193,24 @@ func runC10(c *Ctx) {
 		c.obMustUnder("EHLO when not greeted", f, []string{"call:(*Client).ehlo"}, `Client.didHello == false`, `(*Client).greet(param0) == nil`)
 	}
 	ruleEhloReplacesExt(c)
+	// ... and every exported method consults the extension map only after hello() has run in that very call: a
+	// capability accessor that answers from the map it finds (filled by the plaintext EHLO) skips the renegotiation
+	for _, f := range c.P.AllFuncs() {
+		n := funcName(f)
+		if !strings.HasPrefix(n, "(*Client).") || !isExported(f) || followers[n] {
+			continue
+		}
+		allInstrs(f, func(in ssa.Instruction) {
+			v, ok := in.(ssa.Value)
+			if !ok {
+				return
+			}
+			if fld, _ := loadedField(v); fld == nil || fld.Name() != "ext" {
+				return
+			}
+			R.Ob(c.siteKey(in, "extension map read only after hello()"), c.P.InstrPos(in), s.SeenBefore(in)["call:(*Client).hello"], n+" reads Client.ext on a path that has not run hello() in this call: after STARTTLS (didHello cleared, map still holding the plaintext capabilities) the answer comes from the plaintext EHLO")
+		})
+	}
 	ruleStickyHandshake(c)
 	ruleHelloErrorNotMasked(c) // a refused EHLO inside TLS is an error, not "AUTH/STARTTLS not offered"
 
